@@ -41,7 +41,11 @@ func (e *Env) runJob(j *Job) {
 	args = append(args, j.Extra...)
 	cmd := exec.Command(j.Bin, args...)
 	cmd.Dir = e.WorkDir
-	cmd.Env = append(os.Environ(), j.Env...)
+	// One P per simulation process: every world is single-threaded or
+	// serialised by the scheduler, and with one P the per-P caches of
+	// sync.Pool (which a changed library might introduce) behave the same in
+	// every process.  The workers give the parallelism.
+	cmd.Env = append(append(os.Environ(), "GOMAXPROCS=1"), j.Env...)
 	var stdout, stderr bytes.Buffer
 	cmd.Stdout, cmd.Stderr = &stdout, &stderr
 	t0 := time.Now()
